@@ -645,6 +645,8 @@ class RefDevice:
                 return []
             if len(body) >= 7 and body[4] == 0x02 and body[6] == 0x02:
                 self.state["display_on"] = not self.state["display_on"]
+                for k, v in (getattr(self, "on_toggle_change", None) or {}).items():
+                    self.state[k] = v          # someone uses the remote control at that very moment
                 self._last_toggle_beep = bool(body[1] & 0x40)
                 self.toggles = getattr(self, "toggles", 0) + 1
                 return [self.state_frame(ftype=FT_QUERY)]
